@@ -190,6 +190,9 @@ func runC03(t *T) {
 	defer beginTrial(t, true)()
 	fs, st, desc := c03Stack(t, kind)
 	alpha := []string{"a", "b", "c"}
+	if c.Chance(1, 4) && c03Family(kind) != "mount" {
+		alpha = []string{"a", "ab", "b"}
+	}
 	probe := candidatePaths(alpha, 3)
 	g := newFsGen(t, alpha, 3)
 	n := 1 + c.Draw(20)
